@@ -213,6 +213,25 @@ def refusals(rng, ctx):
             except Exception as err:
                 ctx.ok("refused")
                 ctx.count("refusal:" + type(err).__name__)
+        # arbitrary lists against arbitrary domain lengths
+        for _ in range(6):
+            length = rng.randint(1, 6)
+            request = [rng.randint(-1, length) for _ in range(length)]
+            for dom_len in sorted({length, len(set(request)), max(request) + 1,
+                                   rng.randint(0, 7)}):
+                if dom_len < 0:
+                    continue
+                if sorted(request) == list(range(length)) and dom_len == length:
+                    continue
+                domain = make_ty(names_for(dom_len))
+                try:
+                    value = D.permutation(list(request), domain)
+                    ctx.fail("refused", kind="random non-permutation or length "
+                             "mismatch returned a value", cls=cls, perm=request,
+                             dom=safe_repr(domain), value=safe_repr(value))
+                except Exception as err:
+                    ctx.ok("refused")
+                    ctx.count("refusal:" + type(err).__name__)
         both = make_ty(names_for(3))
         if cls != "zx":
             for left, right in ((both[:2], both[2:]), (both[:1], both[1:]), (both[:0], both[:1])):
